@@ -29,6 +29,37 @@ ENCODED = ["twisted.cred.credentials:DigestCredentialFactory.getChallenge",
            "twisted.cred._digest:calcHA1", "twisted.cred._digest:calcHA2", "twisted.cred._digest:calcResponse"]
 BOUNDS = {"quick": {"x": 2}, "thorough": {"x": 3}}
 B = {}
+BOUNDS_TEXT = ("one challenge (md5, client 10.0.0.1) answered by a client response with the usual ten fields; "
+               "`valid`: untouched fields, wrong password = any <= 3 bytes, other client address = any <= 3 bytes / "
+               "empty / None, age any integer 0..2000 s around CHALLENGE_LIFETIME_SECS=900; `tamper`: ONE field of a "
+               "correct client's response replaced by any <= x bytes or removed, with right / wrong password, same / "
+               "other address, symbolic age; `legit`: the client itself sends another value (<= x bytes of '0'..'z' "
+               "without '=') for one field, or omits it, and computes its response over what it sends; `forge`: a "
+               "well-formed opaque whose signed key has its nonce / address / time part replaced by any <= x bytes "
+               "(or a fourth part added), under the issued digest or under <= x attacker-chosen digest bytes "
+               "(total symbolic bytes <= x)")
+OUTSIDE = ["two or more fields changed at once; replacement values longer than x bytes (every genuine value is "
+           "longer than x bytes, so a replaced hashed field never equals the original)",
+           "sha / md5-sess algorithms offered by the factory; checkHash(); several challenges or factories; "
+           "twisted.web._auth.digest and the HTTP header layer above decode()",
+           "real MD5/SHA1 collisions and real base64 (ideal-hash and reversible-encoding stand-ins, below)",
+           "reordering of fields, extra unknown fields, parameter NAMES containing symbolic bytes"]
+ASSUMPTIONS = ["ideal hash: md5()/sha1() are a per-run memo table - equal (algorithm, text) give the same short hex "
+               "token, different texts different tokens (no collisions), equality of hashed texts decided by the "
+               "solver; hexlify is the identity on these tokens",
+               "base64.b64encode/b64decode are replaced by a reversible bracket encoding; on input that is not an "
+               "encoding the decoder behaves like the real one on short input (drops characters outside the "
+               "alphabet, refuses what is left with binascii.Error, empty -> empty); reversibility of both and the "
+               "short malformed cases are checked in selftest",
+               "secureRandom returns fixed text (nonce) and privateKey is set to fixed text the attacker does not "
+               "know; the clock is the factory's own _getTime hook set by the harness",
+               "the compiled regex _parseparts is replaced by a pure-Python scanner with the same findall() result "
+               "(selftest: 3000+ strings over the characters that matter, against the real regex); nativeString by "
+               "LBytes.decode('ascii'); _digest.algorithms by a list-based mapping with the same keys",
+               "LBytes reproduces bytes semantics (vlib.lbytes.selftest); lifted and real code agree on the vectors"]
+EXPLANATION = ("lifted real decode/_verifyOpaque/checkPassword/calcResponse on a rendered response whose mutated "
+               "field is symbolic bytes; acceptance compared with the specification, any escaping exception is a "
+               "counterexample")
 
 LIFETIME = 15 * 60
 T0 = 1000000          # time of the challenge
@@ -86,6 +117,9 @@ def _hexlify(x):
     return lbytes.LBytes(lbytes._s(x))
 
 
+_B64_ALPHABET = "ABCDEFGHIJKLMNOPQRSTUVWXYZabcdefghijklmnopqrstuvwxyz0123456789+/"
+
+
 class _B64:
     """reversible stand-in: encode(x) = '{' + x + '}'; decode rejects anything else"""
 
@@ -97,7 +131,12 @@ class _B64:
     def b64decode(x):
         s = lbytes._s(x)
         if len(s) < 2 or s[0] != "{" or s[len(s) - 1] != "}":
-            raise binascii.Error("Incorrect padding")
+            # like the real decoder on short input: characters outside the alphabet are dropped, what
+            # is left (unpadded, not a multiple of 4) is refused; nothing left decodes to nothing
+            for c in s:
+                if lbytes._char_in(c, _B64_ALPHABET):
+                    raise binascii.Error("Incorrect padding")
+            return lbytes.LBytes("")
         return lbytes.LBytes(s[1:len(s) - 1])
 
 
@@ -347,7 +386,7 @@ def legit(field: int, delete: bool, sym: str, wrongpw: bool, otherip: bool, elap
 def forge(part: int, sym: str, keepdigest: bool, dig: str, elapsed: int) -> bool:
     """
     pre: 0 <= part <= 3 and len(sym) <= B['x'] and all(ord(c) < 256 for c in sym)
-    pre: len(dig) <= B['x'] and ((keepdigest and len(dig) == 0) or len(sym) + len(dig) <= B['x'])
+    pre: len(dig) <= B['x'] and ((len(dig) == 0) if keepdigest else (len(sym) + len(dig) <= B['x']))
     pre: all(ord(c) < 256 for c in dig)
     pre: 0 <= elapsed <= 2000
     post: _
@@ -405,12 +444,26 @@ def valid(elapsed: int, wrongpw: bool, pw: str, otherip: bool, ip: str, noip: bo
     return res == "ok"
 
 
+def _tamper_shards(tier):
+    out = [("field == %d" % i, "delete") for i in range(10)]
+    for i in range(10):
+        for n in range(BOUNDS[tier]["x"] + 1):
+            pre = ("field == %d" % i, "not delete", "len(sym) == %d" % n)
+            if n >= 2 and i in (6, 7, 8):
+                # the unquoted fields see more of the parser: split by the class of the first byte
+                out.append(pre + ("sym[0] < '0'",))
+                out.append(pre + ("'0' <= sym[0] <= 'Z'",))
+                out.append(pre + ("'Z' < sym[0] <= 'z'",))
+                out.append(pre + ("sym[0] > 'z'",))
+            else:
+                out.append(pre)
+    return out
+
+
 HARNESSES = [
     H(valid, shards=[("len(pw) == %d" % a, "len(ip) == %d" % c) for a in range(4) for c in range(4)],
       timeout={"quick": 60, "thorough": 300}),
-    H(tamper, shards=lambda tier: [("field == %d" % i, "delete") for i in range(10)] +
-      [("field == %d" % i, "not delete", "len(sym) == %d" % n) for i in range(10) for n in range(BOUNDS[tier]["x"] + 1)],
-      timeout={"quick": 100, "thorough": 1500}),
+    H(tamper, shards=lambda tier: _tamper_shards(tier), timeout={"quick": 100, "thorough": 1500}),
     H(legit, shards=lambda tier: [("field == %d" % i, "delete") for i in (1, 5, 6, 7, 8, 9)] +
       [("field == %d" % i, "not delete", "len(sym) == %d" % n) for i in (0, 1, 2, 3, 5, 6, 7, 9)
        for n in range(1, BOUNDS[tier]["x"] + 1)],
@@ -448,8 +501,12 @@ def selftest():
         if lbytes._s(_B64.b64decode(_B64.b64encode(lbytes.LBytes(raw.decode("latin-1"))))) != raw.decode("latin-1"):
             raise AssertionError("base64 stand-in not reversible")
         n += 1
-    for bad in [b"b", b"bb", b"abc", b"a-b"]:
-        for dec, arg in ((base64.b64decode, bad), (_B64.b64decode, lbytes.LBytes(bad.decode()))):
+    for okay in [b"", b"\r", b"-=", b"{}"]:
+        if base64.b64decode(okay) != b"" or lbytes._s(_B64.b64decode(lbytes.LBytes(okay.decode()))) != "":
+            raise AssertionError("base64 stand-in differs on %r" % (okay,))
+        n += 1
+    for bad in [b"b", b"bb", b"abc", b"a-b", b"\xffz"]:
+        for dec, arg in ((base64.b64decode, bad), (_B64.b64decode, lbytes.LBytes(bad.decode("latin-1")))):
             try:
                 dec(arg)
             except binascii.Error:
@@ -457,3 +514,17 @@ def selftest():
             else:
                 raise AssertionError("malformed base64 %r accepted" % (bad,))
     return n
+
+
+VECTORS = {
+    "valid": [(0, False, "", False, "", False), (900, False, "", False, "", False), (901, False, "", False, "", False),
+              (5, True, "ab", False, "", False), (5, False, "", True, "", True), (5, False, "", True, "1.1", False)],
+    "tamper": [(i, True, "", False, False, 10) for i in range(10)] +
+              [(i, False, "zz", False, False, 10) for i in range(10)] +
+              [(5, False, "a-b", False, False, 10), (5, False, "-", False, False, 10), (8, False, "\n", False, False, 1),
+               (6, False, ",", False, False, 1), (1, False, "zz", True, False, 10), (1, False, '"', False, True, 10),
+               (3, False, "\xff=", False, False, 10), (0, False, "", False, False, 10)],
+    "legit": [(i, False, "Zz", False, False, 10) for i in (0, 1, 2, 3, 5, 6, 7, 9)] +
+             [(i, True, "Z", False, False, 10) for i in (1, 5, 6, 7, 8, 9)] + [(3, False, "Zz", False, False, 901)],
+    "forge": [(p, "77", True, "", 10) for p in range(4)] + [(p, "7", False, "d", 10) for p in range(4)],
+}
